@@ -277,7 +277,7 @@ prop("C18", "Cluster-mode bidirectional units are single-slot or refused, never 
      CLUSTER_ASSUME + ["COMMAND GETKEYS of the double answers from the reference key table and rejects unknown commands the way a Redis node does", "unknown commands are not combined with key filters (the filter's behaviour for a command without key positions is outside this property)", "streams use database 0 only"], max_inconclusive=1)
 
 prop("C19", "Cluster replay reaches each key's slot owner and keeps per-key order", "exploration",
-     "a case = 2-4 node layout with generated slot bounds x per-node reply latency (0 / 0.2 / 1.5 / 5 ms) x batch size 1-50 x {blocking, pipelined} x {ticker-driven (redirections handled), transactional (redirection => reported restart)} x stream of 3-40 writes over 15 pool keys (SET with a unique value; MSET over all pool keys of one slot) x 0-4 migration events (slot of a pool key: MIGRATING/IMPORTING with a generated subset of keys already moved => ASK, finish => MOVED, direct ownership move) fired when the cluster has processed a generated number of requests (between or in the middle of batches). "
+     "a case = 2-4 node layout with generated slot bounds x per-node reply latency (0 / 0.2 / 1.5 / 5 ms) x batch size 1-50 x {blocking, pipelined} x {ticker-driven (redirections handled), transactional (redirection => reported restart)} x stream of 3-40 writes over 15 pool keys (SET with a unique value; MSET over all pool keys of one slot) x 0-4 migration events (slot of a pool key: MIGRATING/IMPORTING with a generated subset of keys already moved => ASK, finish => MOVED, direct ownership move) fired when the cluster has processed a generated number of requests (between or in the middle of batches); one case in six is the scripted history 'a node that owns a single slot receives a slot, loses everything, gets a slot back', one in eight 'the slot is handed to a node that refuses connections' (MOVED names an unreachable address), one in eight 'the topology refresh triggered by a MOVED reply lands while the next batch is being built' (blocking sending, slow CLUSTER SLOTS, a command unknown to the key tables - COMMAND GETKEYS round trip - between two writes on the migrating key). "
      "non-trivial = distinct case in which a MOVED/ASK reply occurred and the replay touched >= 2 nodes. "
      "Oracle: the double executes a command only at the node entitled to it, so ownership is by construction; per key the sequence of values that took effect (cluster-wide order) must follow the source order with rewinds only (no write takes effect before its predecessor, none invented); unless Send reported an error every key ends at its last source value (no silent loss); transactional mode: no value takes effect twice within the run, whether or not Send reported an error.",
      [{"pkg": "c19", "test": "TestC19",
